@@ -414,6 +414,12 @@ def _clone(ex, st, c, args, dty):
     return deref1(ex, st, args[0])
 
 
+@reg_pred(lambda c: c.trait is not None and _type_head(c.trait) == "ToOwned" and c.method == "to_owned")
+def _to_owned(ex, st, c, args, dty):
+    # T: Clone => to_owned = clone (slices / str are handled by their own summaries before this one)
+    return deref1(ex, st, args[0])
+
+
 @reg_pred(lambda c: c.trait is not None and _type_head(c.trait) == "Drop" and c.method == "drop")
 def _drop(ex, st, c, args, dty):
     return UNIT
@@ -1110,9 +1116,17 @@ def _min(ex, st, c, args, dty):
 @reg("panicking::panic", "panicking::panic_fmt", "panicking::panic_explicit", "panicking::unreachable_display",
      "panicking::panic_display", "panicking::begin_panic", "rt::begin_panic", "panicking::panic_nounwind",
      "panicking::assert_failed", "option::unwrap_failed", "result::unwrap_failed", "option::expect_failed",
-     "panicking::panic_bounds_check", "slice::index::slice_end_index_len_fail", "core::panicking::panic")
+     "panicking::panic_bounds_check", "slice::index::slice_end_index_len_fail", "core::panicking::panic", "panic_fmt")
 def _panic(ex, st, c, args, dty):
     msg = "panic"
+    if args and isinstance(args[0], LibV) and args[0].kind in ("fmtlit", "fmtargs"):
+        try:
+            t = _fmt_format2(ex, st, c, [args[0]], None)
+            b = _concrete_bytes(t.s) if isinstance(t, Str) else None
+            if b is not None:
+                msg = b.decode("utf-8", "replace")
+        except Exception:
+            pass
     if args and isinstance(args[0], Ref):
         try:
             v = deref(ex, st, args[0])
@@ -1301,6 +1315,9 @@ def _iter_zip(ex, st, c, args, dty):
     a, b = _as_arr(a), _as_arr(b)
     n = min(len(a.elems), len(b.elems))
     return _mk_iter(Arr(tuple(Tup((x, y)) for x, y in zip(a.elems[:n], b.elems[:n]))))
+
+
+TABLE["iter::zip"] = _iter_zip
 
 
 def _as_arr(items) -> Arr:
@@ -1542,7 +1559,8 @@ def _fmt_arguments_new(ex, st, c, args, dty):
 
 @reg("Arguments::from_str", "Arguments::new_const")
 def _fmt_arguments_from_str(ex, st, c, args, dty):
-    return LibV("fmtargs", (deref(ex, st, args[0]), Arr(())))
+    # a literal without placeholders: the argument is the text itself, not an encoded template
+    return LibV("fmtlit", deref(ex, st, args[0]))
 
 
 def _concrete_bytes(seq) -> Optional[bytes]:
@@ -1567,6 +1585,11 @@ def _concrete_bytes(seq) -> Optional[bytes]:
 @reg("fmt::format")
 def _fmt_format2(ex, st, c, args, dty):
     fa = args[0]
+    if isinstance(fa, LibV) and fa.kind == "fmtlit":
+        if isinstance(fa.data, Str):
+            return fa.data
+        if isinstance(fa.data, Bytes):
+            return Str(fa.data.s)
     if isinstance(fa, LibV) and fa.kind == "fmtargs":
         tmpl, fargs = fa.data
         tb = _concrete_bytes(tmpl.s) if isinstance(tmpl, (Bytes, Str)) else None
